@@ -79,12 +79,12 @@ FaultUniverse ==
   \cup {[op |-> o, t |-> g] : o \in FaultOps \cap {"set_desired", "list_pods", "list_nodes"}, g \in GSet}
 
 \* every combination of the groups' admissible choices
-DummyObs == [g \in GSet |-> [att |-> <<>>, nd |-> 0, ndAny |-> FALSE]]
+DummyObs == [g \in GSet |-> [att |-> <<>>, nd |-> 0, ndAny |-> FALSE, fleetLo |-> 0]]
 Outcomes(W, F) ==
   LET nds(g) == RunOnce(W, F, DummyObs).res[g].ndSet
       Atts(g, d) == LET sel == RunOnce(W, F, [DummyObs EXCEPT ![g].nd = d]).res[g].sel
                     IN IF sel.dir = 0 THEN {<<>>} ELSE Selections(CreatedOf(W.groups[g]), sel.dir, sel.cands, sel.k, sel.fails)
-      Choices(g) == UNION {{[att |-> a, nd |-> d, ndAny |-> FALSE] : a \in Atts(g, d)} : d \in nds(g)}
+      Choices(g) == UNION {{[att |-> a, nd |-> d, ndAny |-> FALSE, fleetLo |-> 0] : a \in Atts(g, d)} : d \in nds(g)}
       ObsSet == {o \in [GSet -> UNION {Choices(g) : g \in GSet}] : \A g \in GSet : o[g] \in Choices(g)}
   IN {r \in {RunOnce(W, F, o) : o \in ObsSet} : r.valid}
 
